@@ -421,8 +421,8 @@ func updateResOne(res Resolver, rel UniRel) []UniRel {
 	}
 }
 
-func updateResolverN(count int, res Resolver, rels []UniRel) Resolver {
-	frt.IfOnly((count > 1000), (func() {
+func updateResolverN(count int, work int, res Resolver, rels []UniRel) Resolver {
+	frt.IfOnly(((count > 1000) || (work > 100000)), (func() {
 		PanicNow("Type inference does not converge, maybe recursive type.")
 	}))
 	nrels := frt.Pipe(frt.Pipe(rels, (func(_r0 []UniRel) [][]UniRel {
@@ -431,12 +431,12 @@ func updateResolverN(count int, res Resolver, rels []UniRel) Resolver {
 	return frt.IfElse(slice.IsEmpty(nrels), (func() Resolver {
 		return res
 	}), (func() Resolver {
-		return updateResolverN((count + 1), res, nrels)
+		return updateResolverN((count + 1), (work + slice.Length(nrels)), res, nrels)
 	}))
 }
 
 func updateResolver(res Resolver, rels []UniRel) Resolver {
-	return updateResolverN(0, res, rels)
+	return updateResolverN(0, 0, res, rels)
 }
 
 func transTypeLfd(transTV func(TypeVar) FType, lfd LetFuncDef) LetFuncDef {
